@@ -106,7 +106,8 @@ def run_goextract():
         return "goextract build failed:\n" + err
     with Lock("coq.lock"):
         rc, log = sh([exe, "-repo", REPO, "-out", os.path.join(COQ, "Generated"),
-                      "-fallback", os.path.join(COQ, "GeneratedBase")], timeout=300)
+                      "-fallback", os.path.join(COQ, "GeneratedBase"),
+                      "-base", os.path.join(VERIF, "funchash.base.json")], timeout=300)
     if rc != 0:
         return "goextract failed:\n" + log
     return None
